@@ -8,6 +8,9 @@ mod crc;
 pub use build::DataFrameBuilder;
 pub use build::AckFrameBuilder;
 
+#[cfg(uflow_verif)]
+pub fn verif_crc(data: &[u8]) -> u32 { crc::compute(data) }
+
 const FRAME_HEADER_SIZE: usize = 1;
 const FRAME_CRC_SIZE: usize = 4;
 const FRAME_OVERHEAD: usize = FRAME_HEADER_SIZE + FRAME_CRC_SIZE;
